@@ -1047,3 +1047,6 @@ def run(chk, facts, tier, only=None):
         import c15
         chk.include(c15, "C15.R3", "C12.R9", facts)     # exported Rust types: the derive sorts fields by the id of the label it emits
         chk.include(c11, "C11.R3", "C12.R10", facts)    # numeric labels and numbers are printed in a form that re-lexes to the same number
+        import c14
+        # the printer emits definitions in name order: the checker's verdict on a program must not depend on the order of its definitions
+        chk.include(c14, "C14.R4", "C12.R11", facts)
